@@ -99,6 +99,22 @@ def arg(x):
     return None if x == NOARG else x
 
 
+def arg_form(hs, R, rs):
+    """the rows handed to extend / += as a list, a tuple, an iterator or another Grid (chosen by the rows themselves,
+    so that a replay makes the same choice); a Grid only when every row is a dict"""
+    objs = [R.objs[x] for x in rs]
+    k = (sum(rs) + len(rs)) % 4
+    if k == 1:
+        return tuple(objs)
+    if k == 2:
+        return iter(objs)
+    if k == 3 and objs and all(isinstance(x, dict) for x in objs):
+        src = hs.Grid(version='3.0')
+        src._row.extend(objs)          # a carrier only: the receiving grid is the one under test
+        return src
+    return objs
+
+
 def apply_op(hs, g, R, o):
     """Apply abstract operation o to real grid g.  Returns (result, grid the history continues on)."""
     n = o['name']
@@ -131,11 +147,11 @@ def apply_op(hs, g, R, o):
             r = g.clear()
             return (['None'] if r is None else ['unexpected_return']), g
         if n == 'extend':
-            r = g.extend([R.objs[x] for x in o['rs']])
+            r = g.extend(arg_form(hs, R, o['rs']))
             return (['None'] if r is None else ['unexpected_return']), g
         if n == 'iadd':
             g0 = g
-            g += [R.objs[x] for x in o['rs']]
+            g += arg_form(hs, R, o['rs'])
             return (['self'] if g is g0 else ['not_self']), g0
         if n == 'slice':
             d = g[arg(o['a']):arg(o['b'])]
